@@ -14,6 +14,9 @@ RULE = ('seeded random scenarios on REAL directory trees under tempfile.mkdtemp(
 RULE += ('  file_exts is handed over in every kind of iterable (list, tuple, set, frozenset, dict, dict view, '
          'generator, iterator, map object, reversed); the root in ten spellings; pre-existing handles / maps with '
          'value equality or falsy.')
+RULE += ('  The tree CHANGES between populations of the same populator object (files / directories added deep in '
+         'the tree, subtrees removed); extra arguments that are objects (lists, dicts, un-copyable objects, '
+         'generators, locks) are observed by identity.')
 ASSUMPTIONS = ['no file or directory name starts with a dot (glob does not list them) — hypothesis ListingOk',
                'the listing handed to the model is what the real glob.iglob returned on the real tree; the '
                'harness checks ListingOk on it (rule directory first, parents first, nothing twice, exactly the '
